@@ -1174,8 +1174,13 @@ class FCN(object):
         :param x: List. Values of variables.
         :return nll: Real number. The value of NLL.
         """
+        from tf_pwa.data import LazyCall
+
         self.model.set_params(x)
-        if type(self.model) == Model_new:
+        if type(self.model) == Model_new or isinstance(
+            self.data, LazyCall
+        ):
+            # lazy data are only evaluated batch by batch
             nll, g = self.get_nll_grad(x)
         else:
             nll = self.model.nll(
